@@ -43,7 +43,9 @@ struct CallCtx {
   Obs* obs = nullptr;
   int action_idx = 0;
   bool fault_fired = false;
-  bool ok_nested_done = false;   // the operations attached at position -1 (performed by the OK reporter) have run
+  bool ok_nested_done = false;
+  bool tracer_ops_allowed = false;  // only for calls the model accepts: a rejected call is checked against the state it met
+  bool trace_nested_done = false;   // likewise for position -2 (performed by the tracer)   // the operations attached at position -1 (performed by the OK reporter) have run
 };
 
 struct scope_abort {};
@@ -93,6 +95,7 @@ class ExecImpl : public ClauseSink {
   void bury_moved_from_seqs();
   bool in_reporter_op = false;
   void on_ok();
+  void on_trace();
   std::vector<trompeloeil::deathwatched<Plain>*> rwatched;
   std::vector<trompeloeil::deathwatched<MockT<false>>*> rwatched_mock;   // same index; set when the watched object is a mock (it is owned through rmocks)
   void watched_death_model(int wid, std::vector<XRep>& want);
